@@ -158,6 +158,50 @@ CLAIMS.update({
         note=TRUST + 'C18: no units for htp_tx_create;destroy (symex does not finish), hooks, config copy, connp create/destroy, digest auth; leaks under allocation failure are not violations of C18 as stated and are recorded as observations.'),
 })
 
+
+# ---- session 3 (2026-09-28): what changed in the claims (appended sentences; stale notes replaced) -------------------------------------------------
+def _amend(pid, more=None, note=None, technique=None):
+    c = CLAIMS[pid]
+    if more:
+        c['text'] = c['text'] + ' ' + more
+    if note is not None:
+        c['note'] = TRUST + note
+    if technique:
+        c['technique'] = technique
+
+
+_amend('C09', more=('Since session 3 the line-oriented states REQ_LINE (+ REQ_LINE_complete), REQ_PROTOCOL, REQ_HEADERS, RES_LINE (three exhaustive cases) and RES_FINALIZE are ENFORCED against '
+                    'contracts that contain the shared state contract; htp_connp_req_close is enforced with the driver replaced by its proved contract (a direction in ERROR or STOP stays there when the stream is closed - a defect found by this unit is repaired).'),
+       note='C09: htp_connp_RES_HEADERS is the one state function still ASSUMED to meet the shared state contract (bounded units cover its look-ahead, folding cap, fold decision and closed-stream branch); callbacks return OK/DECLINED/STOP/ERROR; RES_LINE assumes a closed stream offers no data (needed for termination) and the generic line parser.')
+_amend('C03', more=('Session 3: REQ_LINE, REQ_HEADERS, RES_LINE, RES_FINALIZE are under dfcc contract with the L2 clause "incomplete line => DATA_BUFFER, chunk exhausted, no LF among the bytes read, nothing decided (no helper ran; state, buffer, flags unchanged)"; '
+                    'the consolidation relation the line states assume is enforced on the real htp_connp_req/res_consolidate_data.'),
+       note='C03: the two-run relational claim is not decided; L3 is a manual audit. Probes that depend on chunk geometry for input OUTSIDE the quantifier (not well-formed exchanges): REQ_PROTOCOL protocol-less request line followed by headers, RES_LINE junk-line probe, bare CR ending a status line - native reproducers under findings/c03_*.c, recorded as observations in DESIGN 13, not claimed and not findings.')
+_amend('C05', more=('Session 3: htp_tx_state_response_headers is enforced (RESPONSE_HEADERS exactly once after the raw-data flush, refusal returned at once, progress untouched) with its Content-Encoding loop unwound over header values <= 8 bytes (bounded); '
+                    'REQ_HEADERS guarantees progress TRAILER before a closed-stream re-entry of the header transition (REQUEST_HEADERS at most once); RES_BODY_DETERMINE carries the 100-continue restart.'),
+       note='C05: put_file == NULL assumed in the request-complete units; user callbacks return OK/DECLINED/STOP/ERROR and do not re-enter the parser; cross-function trace order is the composition of the per-transition contracts (paper).')
+_amend('C07', more='Session 3: the layer limits, coding classification and chain shape are post-conditions of the REAL htp_tx_state_response_headers (bounded in the header value length only); both body sinks with a content coding in force and the token scanner are under contract.')
+_amend('C13', more=('Session 3: the splitter itself is now under dfcc contract with every loop closed by a loop contract (nothing unwound): htp_parse_uri for targets up to VCAP = 32 / 64 bytes (inductive(CAP)): order and adjacency chain of the 8 components, '
+                    'last component ends where the trailing spaces begin, "/"-rule; htp_parse_hostport for any length up to 64 / 1024 (first-colon, IPv6 bracket, invalid flag, port through the proved integer contract); htp_parse_uri_hostport. '
+                    'The bounded reference units stay for the existential facts (exact values).'),
+       technique='CBMC code contracts (dfcc) with loop contracts on the real splitter (htp_parse_uri inductive(CAP), htp_parse_hostport any length); bounded reference equality with native replay for exact values; dfcc contracts for the port rule',
+       note='C13: CBMC has no memchr model; a contract with a first-occurrence witness is supplied. F-C13-IPV6 is carved out of the adjacency law by the exact predicate U_JUNK / ipv6_junk_after_bracket and re-confirmed by a probe run.')
+_amend('C02', more=('Session 3: htp_parse_request_header_generic, htp_parse_request_line_generic_ex, htp_parse_response_line_generic, htp_parse_single_cookie_v0, htp_parse_cookies_v0, htp_parse_ct_header and htp_parse_authorization_digest are under UNBOUNDED dfcc contracts '
+                    '(any line length up to VCAP, every loop closed): each reported component is a logged duplication whose source range lies inside the line, in order; by witness index every byte outside the ranges is a delimiter / white space; flag rules of the request header.'),
+       note='C02: htp_extract_quoted_string_as_bstr has a bounded unit only (its contract does not leave SSA conversion); existential facts (first colon, exact split) stay with the bounded reference units; Digest user name = first occurrence of username= (observation, see DESIGN 13).')
+_amend('C18', more=('Session 3: life-cycle lemma units on the real code: connp create / open / close / destroy / destroy_all (also mid-stream and "destroy the parser, keep the data"), tx create ; destroy with everything a transaction can own, conn destroy, config create ; destroy, '
+                    'urlencoded / multipart parser create ; destroy, multipart hand-over; one use-after-free on a documented history found and repaired.'),
+       note='C18: leaks or dropped items under allocation failure (htp_tx_create / cookie / multipart part push / hand-over ignore a failed insertion) are NOT violations of C18 as stated; the clauses are not claimed on those paths (macros KNOWN_F_C18_* in units/c18_life.py, KNOWN_F_C02_COOKIE_ADDN) and they are recorded as observations.')
+_amend('C19', more=('Session 3: (a) the C type checker decides "no store through a configuration lvalue" for EVERY function of the tree: the sources are type-checked with `typedef const struct htp_cfg_t htp_cfg_t;` (every htp/*.c except htp_config.c; 0 errors on the unchanged tree); '
+                    '(b) htp_mpart_part_destroy is enforced with close() replaced by a stub whose precondition is false: a descriptor number is released only where the upload ends, never twice by one parser (interference through the process descriptor table).'),
+       technique='dfcc frame (assigns) obligations of all enforced contracts + syntactic scan of the assigns clauses + static-storage scan (gcc -c, nm) + const-typedef type check of the configuration',
+       note='C19: thread schedules are not explored (no thread model in CBMC contracts); umask() around mkstemp is process-wide (observation); stores through casts / memcpy and objects the configuration only points to are outside the const scan.')
+_amend('C01', more=('Session 3: the quick tier runs EVERY unit of every property (no time cut). New teardown units: per-transaction body hooks, connp / conn / tx / config life cycle; three genuine defects found by units on the unchanged tree are repaired (response-body hook leak, parser destroy left transactions dangling, close un-sticking STOP).'),
+       note='C01 scope = the functions under contract listed in evidence; NOT verified: htp_connp_RES_HEADERS as a whole, transcoder / iconv, file extraction I/O, LZMA/zlib internals, the real htp_log (vsnprintf), debug printers; callbacks that destroy the transaction they are called for.')
+_amend('C16', more='Session 3: the WAIT_RESPONSE post-condition is now taken from the property (the request side stays suspended until the status line of a FINAL response has been seen; an interim 100 Continue is not the answer) - the defect this exposed is repaired.')
+_amend('C04', more='Session 3: htp_conn_remove_tx is additionally checked by a loop-structure-independent unit (capacity 4, every ring position, stale tx->index); htp_connp_tx_remove serves C04.')
+_amend('C10', more='Session 3: REQ_HEADERS under dfcc contract asserts the folded-header cap at every append in every iteration (pending length unbounded); RES_HEADERS fold decision is a bounded unit.')
+_amend('C06', more='Session 3: RES_FINALIZE (unexpected body delivered once and counted; next response un-read exactly), REQ_LINE / REQ_HEADERS ("consumed exactly once") and the coded body sinks are under contract.')
+
 NOT_YET = 'not yet built in this session (planned in DESIGN.md section 4); no check is registered, so nothing is claimed'
 NA = {
     'C08': 'amortised cost over a whole stream is not program state expressible at a function boundary; per-loop variants are proved and reported under C01 (DESIGN.md section 5)',
